@@ -52,20 +52,20 @@ type CfgSpec struct {
 	OptMask   int               `json:"opt_mask"`        // which of the four optimisations are enabled
 	ViaDirect bool              `json:"via_directive,omitempty"`
 	DirStyle  int               `json:"dir_style,omitempty"` // how the directive text is laid out
-	Event     string            `json:"event,omitempty"` // "", "report", "debug"
+	Event     string            `json:"event,omitempty"`     // "", "report", "debug"
 }
 
 // Plan is what the environment does during one call into the library.
 type Plan struct {
-	Kind       string       `json:"kind,omitempty"`       // eval | tryeval | evalbool | tryevalbool | dump | dumptable
-	Bind       map[string]V `json:"bind,omitempty"`       // name -> value; a name that is absent is unbound
-	Unavail    []string     `json:"unavail,omitempty"`    // names for which Cached reports false
-	FailAt     []int        `json:"fail_at,omitempty"`    // seam-call indices (Get and user-operator calls, in order) that fail
+	Kind       string       `json:"kind,omitempty"`        // eval | tryeval | evalbool | tryevalbool | dump | dumptable
+	Bind       map[string]V `json:"bind,omitempty"`        // name -> value; a name that is absent is unbound
+	Unavail    []string     `json:"unavail,omitempty"`     // names for which Cached reports false
+	FailAt     []int        `json:"fail_at,omitempty"`     // seam-call indices (Get and user-operator calls, in order) that fail
 	CancelFrom int          `json:"cancel_from,omitempty"` // >0: every Get at seam index >= CancelFrom-1 fails (request cancelled)
-	FailVars   []string     `json:"fail_vars,omitempty"`  // identity-keyed: every Get of these names fails
-	FailOps    []string     `json:"fail_ops,omitempty"`   // identity-keyed: "name|arghash" fails
-	AbortAt    int          `json:"abort_at,omitempty"`   // >0: the callback at seam index AbortAt-1 panics
-	Clock      int64        `json:"clock,omitempty"`      // logical clock read by `now`
+	FailVars   []string     `json:"fail_vars,omitempty"`   // identity-keyed: every Get of these names fails
+	FailOps    []string     `json:"fail_ops,omitempty"`    // identity-keyed: "name|arghash" fails
+	AbortAt    int          `json:"abort_at,omitempty"`    // >0: the callback at seam index AbortAt-1 panics
+	Clock      int64        `json:"clock,omitempty"`       // logical clock read by `now`
 }
 
 func (p *Plan) Clone() Plan {
